@@ -1,7 +1,7 @@
 (* Cesium/UnaryIterRun.v — exactness for every command sequence: after each command that does
    not report an error the frame holds exactly the stored samples of the reported view. *)
 From Coq Require Import ZArith List Bool Lia Sorting.Sorted.
-From Synnax Require Import Cesium.Store Cesium.StoreProofs Cesium.IndexSearch Cesium.IndexSearchProofs
+From Synnax Require Import Cesium.LayoutOk Cesium.Store Cesium.StoreProofs Cesium.IndexSearch Cesium.IndexSearchProofs
      Cesium.Distance Cesium.Stamp Cesium.DomIterProofs Cesium.UnaryIter Cesium.UnaryIterViews
      Cesium.DistanceProofs Cesium.UnaryIterExact Cesium.SliceProofs Cesium.UnaryIterSpec Cesium.Read
      Cesium.UnaryIterViewsRun.
